@@ -64,11 +64,17 @@ def r14(run):
     g = cfg_of(u)
     cmds = [c for c in calls_in(u) if callee_attr(c) == 'queue_command']
     run.floor('R14.1', 'queue_command sites in _add_ephemeral_service', len(cmds), 1)
+    # local names by role (so that renaming a local changes nothing)
+    CMD = cmds[0].args[0].id if cmds and cmds[0].args and isinstance(cmds[0].args[0], ast.Name) else 'cmd'
+    FLAGS = sorted(set((dotted(c.func) or '').rsplit('.', 1)[0] for c in calls_in(u) if callee_attr(c) == 'append' and c.args and const(c.args[0]) in FLAG_OF.values()))
+    FLAGS = FLAGS[0] if len(FLAGS) == 1 else 'flags'
+    RES = (names_defined_by(u, lambda v: isinstance(v, ast.Call) and (dotted(v.func) or '').endswith('find_keywords')) or ['res'])[0]
     # --- cmd is built from 'ADD_ONION {key}' by appends only
-    cmd_defs = [n for n in walk_unit(u) if isinstance(n, (ast.Assign, ast.AugAssign)) and 'cmd' in assigned_targets(n)]
+    cmd_defs = [n for n in walk_unit(u) if isinstance(n, (ast.Assign, ast.AugAssign)) and CMD in assigned_targets(n)]
     init = [n for n in cmd_defs if isinstance(n, ast.Assign)]
-    ok = len(init) == 1 and shape_prefix(shape(init[0].value)) == 'ADD_ONION ' and \
-        [dotted(h.node) for h in shape(init[0].value) if isinstance(h, Hole)] == ['keystring']
+    holes0 = [dotted(h.node) for h in shape(init[0].value) if isinstance(h, Hole)] if init else []
+    KS = holes0[0] if len(holes0) == 1 and holes0[0] else 'keystring'
+    ok = len(init) == 1 and shape_prefix(shape(init[0].value)) == 'ADD_ONION ' and len(holes0) == 1
     run.ob('R14.1', u, init[0] if init else u.node, 'the command starts as "ADD_ONION <key specifier>"', ok, slot='cmd-init',
            message='cmd initialised as %s' % [src(n.value) for n in init])
     for n in cmd_defs:
@@ -79,11 +85,11 @@ def r14(run):
             run.ob('R14.1', u, n, 'the command is only extended by Port=/Flags=/ClientAuth= items', okp, slot='cmd-append:%s' % pre.strip(),
                    message='cmd extended with %s' % shape_text(sh))
     for c in cmds:
-        run.ob('R14.1', u, c, 'the command sent is the assembled one', c.args and dotted(c.args[0]) == 'cmd', slot='cmd-arg', message='queue_command(%s)' % src(c.args[0]) if c.args else '')
+        run.ob('R14.1', u, c, 'the command sent is the assembled one', c.args and dotted(c.args[0]) == CMD, slot='cmd-arg', message='queue_command(%s)' % src(c.args[0]) if c.args else '')
     # CR/LF guard on the key specifier dominates the command
     for c in cmds:
         for n in g.nodes_containing(c):
-            gd = g.guarded_by(n, lambda t: isinstance(t, ast.Compare) and isinstance(t.ops[0], ast.In) and const(t.left) in ('\r', '\n') and dotted(t.comparators[0]) == 'keystring')
+            gd = g.guarded_by(n, lambda t: isinstance(t, ast.Compare) and isinstance(t.ops[0], ast.In) and const(t.left) in ('\r', '\n') and dotted(t.comparators[0]) == KS)
             chars = set(const(t.ast.left) for t, lab in gd if lab == 'F')
             run.ob('R14.1', u, c, 'a key with CR or LF is rejected before ADD_ONION is sent', chars == {'\r', '\n'}, slot='crlf',
                    message='ADD_ONION is reachable with a key specifier containing %s' % sorted({'\r', '\n'} - chars))
@@ -115,7 +121,7 @@ def r14(run):
                 return auth if isinstance(a.ops[0], ast.IsNot) else (not auth)
             if isinstance(a, ast.Call) and dotted(a.func) == 'isinstance' and dotted(a.args[0]) == 'auth':
                 return True if auth else None
-            if dotted(a) == 'flags':
+            if dotted(a) == FLAGS:
                 return None
             return None
         paths = g.paths(eval_hook=hook, loop_bound=1, max_paths=400000)
@@ -130,14 +136,14 @@ def r14(run):
                         sent += 1
                     continue
                 for a in node_asts(n):
-                    if isinstance(a, ast.Call) and dotted(a.func) == 'flags.append' and a.args:
+                    if isinstance(a, ast.Call) and dotted(a.func) == FLAGS + '.append' and a.args:
                         flags.append(const(a.args[0]))
                     if a in cmds:
                         sent += 1
                     if isinstance(a, ast.Assign):
                         v = assign_to(a, 'onion._private_key')
                         if v is not None:
-                            stores.append('none' if is_none(v) else ('reply' if "res[" in src(v) else ('prefix:' + str(const(v.left)) if isinstance(v, ast.BinOp) else 'other:' + src(v))))
+                            stores.append('none' if is_none(v) else ('reply' if (RES + "[") in src(v) else ('prefix:' + str(const(v.left)) if isinstance(v, ast.BinOp) else 'other:' + src(v))))
                         v = assign_to(a, 'onion._hostname')
                         if v is not None:
                             hostname.append(src(v))
@@ -176,7 +182,7 @@ def r14(run):
                 else:
                     run.ob('R14.2', u, last, 'supplied key: nothing from the reply overwrites it', not reply_store and 'none' not in stores, slot='custody:supplied',
                            message='a supplied key is overwritten after ADD_ONION: %s' % stores)
-                run.ob('R14.4', u, last, "address := ServiceID + '.onion'", hostname == ["res['ServiceID'] + '.onion'"], slot='hostname', message='hostname assigned %s' % hostname)
+                run.ob('R14.4', u, last, "address := ServiceID + '.onion'", hostname == ["%s['ServiceID'] + '.onion'" % RES], slot='hostname', message='hostname assigned %s' % hostname)
             pre = [s for s in stores if s.startswith('prefix') or s.startswith('other')]
             if k0 == 'bare':
                 want_p = {2: 'prefix:RSA1024:', 3: 'prefix:ED25519-V3:'}[version]
@@ -186,7 +192,7 @@ def r14(run):
                 run.ob('R14.2', u, last, 'a key is never rewritten otherwise', not pre, slot='prefix:%s' % k0, message='key of class %s rewritten: %s' % (k0, pre))
     run.count('R14 option-product paths', npaths)
     # keystring flows from the key / version only
-    ks = [n for n in walk_unit(u) if isinstance(n, ast.Assign) and dotted(n.targets[0]) == 'keystring']
+    ks = [n for n in walk_unit(u) if isinstance(n, ast.Assign) and dotted(n.targets[0]) == KS]
     vals = sorted(src(n.value) for n in ks)
     ok = vals == sorted(["'NEW:BEST'", 'onion.private_key', "'NEW:ED25519-V3'"])
     run.ob('R14.2', u, u.node, 'key specifier is the supplied key, or NEW:<type> for the version', ok, slot='keystring-defs', message='keystring definitions: %s' % vals)
@@ -197,7 +203,7 @@ def r14(run):
         shapes = sorted(const(receiver(x.value)) for x in ast.walk(cl[0]) if isinstance(x, ast.AugAssign) and isinstance(x.value, ast.Call))
         ok = shapes == [' ClientAuth={}', ' ClientAuth={}:{}']
         tests = [t for t in ast.walk(cl[0]) if isinstance(t, ast.If)]
-        ok = ok and any('keyblob is None' in src(t.test) or 'keyblob' in src(t.test) for t in tests)
+        ok = ok and any(isinstance(t.test, ast.Compare) and is_none(t.test.comparators[0]) for t in tests)
     run.ob('R14.3', u, cl[0] if cl else u.node, 'one ClientAuth item per client name, with ":blob" iff supplied', ok, slot='clientauth-loop', message='ClientAuth construction changed')
     # the descriptor listener is armed before the command (also C15)
     for c in cmds:
@@ -265,10 +271,12 @@ def r14_5(run):
             for opt in ('private_key', 'detach', 'version', 'single_hop'):
                 run.ob('R14.5', cr, c, '%s.create passes %s through unchanged' % (cname, opt), kw.get(opt) == opt, slot='pass:%s:%s' % (cname, opt),
                        message='%s.create passes %s=%s' % (cname, opt, kw.get(opt)))
-            okp = len(c.args) >= 2 and dotted(c.args[1]) == 'processed_ports'
+            pp_names = names_defined_by(cr, lambda v: isinstance(v, ast.Yield) and isinstance(v.value, ast.Call) and dotted(v.value.func) == '_validate_ports')
+            okp = len(c.args) >= 2 and dotted(c.args[1]) in pp_names
             run.ob('R14.5', cr, c, 'validated ports are the ones used', okp, slot='ports:%s' % cname, message='constructor ports argument is %s' % (src(c.args[1]) if len(c.args) > 1 else None))
         add = [c for c in calls_in(cr) if dotted(c.func) == '_add_ephemeral_service']
-        ok = len(add) == 1 and [dotted(a) for a in add[0].args[:4]] == ['config', 'onion', 'progress', 'version'] and \
+        onion_names = names_defined_by(cr, lambda v: isinstance(v, ast.Call) and dotted(v.func) == cname)
+        ok = len(add) == 1 and len(onion_names) == 1 and [dotted(a) for a in add[0].args[:4]] == ['config', onion_names[0], 'progress', 'version'] and \
             (dotted(add[0].args[4]) == 'auth' if has_auth else is_none(add[0].args[4]))
         run.ob('R14.5', cr, cr.node, '%s.create calls the ADD_ONION helper once with its own options' % cname, ok, slot='helper:%s' % cname,
                message='helper call: %s' % [src(c)[:80] for c in add])
